@@ -165,6 +165,11 @@ func (pc *parentController) syncRevisions(parent *unstructured.Unstructured, obs
 				pr.syncError = err
 				return
 			}
+			if syncResult.Status == nil {
+				// The hook may omit status (or return null); the rollout condition
+				// is written into this map.
+				syncResult.Status = make(map[string]interface{})
+			}
 			pr.syncResult = syncResult
 			pc.addGeneratedSelectorLabel(parent, syncResult.Children)
 			pr.desiredChildMap = commonv1.MakeRelativeObjectMap(parent, syncResult.Children)
